@@ -5,9 +5,9 @@ CONSTANTS
   FixD6 = TRUE
   FixD3 = TRUE
   FixD7 = TRUE
-  MaxCfg = 2
+  MaxCfg = 3
   MaxParse = 2
-  Family = "c16"
+  Family = "c15"
   Reconfigure = FALSE
   Emit = TRUE
 INVARIANTS
